@@ -9,9 +9,12 @@
 //     properties.  "Conforming" is read strictly (docs/validation.rst): tags carry one atomic SI unit per dimension and
 //     therefore reference only arrays whose descriptors are all sampled / range (DESIGN 5 / C19, Decisions).
 //   * k = 0: File::validate() of every file has no error (warnings allowed).
-//   * k = 1: every breach of the hard catalogue is injected alone at EVERY applicable entity of a copy of the file
-//     (same ids); k = 2 (thorough): every non-conflicting pair of breaches.  Unsorted ticks and non-positive intervals
-//     are written through the HDF5 C API into the closed file (the public entry points reject them).
+//   * k = 1: every breach of the hard catalogue, in every variant, is injected alone at EVERY applicable entity of a
+//     copy of the file (same ids).  k = 2 (thorough): pairs of breaches in their first variant that do not conflict
+//     (two writes to the same attribute, or one breach removing the target of the other): ALL such pairs on the 32
+//     files of the quick family, and on the other files all pairs on related entities (same entity, same array, a tag
+//     and an array it uses).  Unsorted ticks and non-positive intervals are written through the HDF5 C API into the
+//     closed file (the public entry points reject them).
 //   * oracle for a breach b in the injected set S and every entity e it makes non-conforming: the multiset of
 //     (entity id, message) errors of the file with S contains an error carrying e's id (dimensions: "unknown") that the
 //     error multiset of the file with S minus all breaches touching e does not contain.
@@ -31,7 +34,7 @@ using namespace nix;
 enum DK { SAMP = 0, RANGE = 1, SET = 2, DFRAME = 3 };
 static const char *DKN[] = {"sampled", "range", "set", "frame"};
 
-struct DimSpec { DK kind; size_t len; std::string unit; };
+struct DimSpec { DK kind; size_t len; std::string unit; bool labeled; };   // labeled: set dimensions only ("labels may be empty")
 struct ArrSpec {
     std::string name; int block; char role;   // 'P' primary, 'X' auxiliary reference target, 'p' positions, 'e' extents, 'f' feature data
     std::vector<DimSpec> dims; bool calib; std::string unit;
@@ -77,12 +80,18 @@ static std::vector<std::vector<DK>> all_combos() {
 
 struct FamEntry { int nblocks; std::vector<int> combos; int variant; };
 
+static const size_t QUICK_FILES = 4 + 28;   // the files on which thorough runs ALL pairs
+
 static std::vector<FamEntry> family(bool thorough) {
     std::vector<FamEntry> v;
-    v.push_back({1, {0}, 0});          // one block, one sampled 1-D array
-    v.push_back({1, {9, 2}, 1});       // one block, (range,range) + (set)
+    // fixed files: the smallest one, and three whose tags / multi-tags have TWO references (two all-scalable arrays of
+    // the same rank in one block are rare in the stride-generated part)
+    v.push_back({1, {0}, 0});              // one block: (sampled)
+    v.push_back({1, {8, 5, 2}, 1});        // one block: (range,sampled) (sampled,range) (set)
+    v.push_back({2, {0, 15, 1}, 2});       // two blocks: (sampled) (set,frame) (range)
+    v.push_back({1, {24, 41}, 3});         // one block: (sampled,range,sampled) (range,range,range)
     const int strides[10] = {37, 5, 11, 13, 17, 19, 23, 25, 29, 31};   // all coprime with 84
-    int rounds = thorough ? 10 : 1;
+    int rounds = thorough ? 8 : 1;   // quick: 4 + 28 files, thorough: 4 + 4*28 + 4*42 = 284 files
     for (int t = 0; t < rounds; t++) {
         int per = (t % 2 == 0) ? 3 : 2;                       // arrays per file of this round
         for (int i = 0; i < 84 / per; i++) {
@@ -94,9 +103,11 @@ static std::vector<FamEntry> family(bool thorough) {
     return v;
 }
 
+// positions / extents / feature data: set dimensions; only the last one of a 2-D array and the one of a feature array
+// carry labels (reading a label dataset is by far the most expensive step of a validation run)
 static ArrSpec small_set_array(const std::string &name, int block, char role, const std::vector<size_t> &shape) {
     ArrSpec a; a.name = name; a.block = block; a.role = role; a.calib = false;
-    for (size_t l : shape) a.dims.push_back({SET, l, ""});
+    for (size_t i = 0; i < shape.size(); i++) a.dims.push_back({SET, shape[i], "", role == 'f' || (shape.size() == 2 && i == 1)});
     return a;
 }
 
@@ -107,7 +118,7 @@ static FileSpec make_spec(const FamEntry &fe, const std::vector<std::vector<DK>>
         ArrSpec a; a.name = "a" + std::to_string(k); a.block = (int)k % fe.nblocks; a.role = 'P';
         const std::vector<DK> &kinds = C[fe.combos[k]];
         for (size_t p = 0; p < kinds.size(); p++) {
-            DimSpec d; d.kind = kinds[p]; d.len = 3 + ((k + p) % 3);
+            DimSpec d; d.kind = kinds[p]; d.len = 3 + ((k + p) % 3); d.labeled = true;
             if (d.kind == SAMP || d.kind == RANGE) d.unit = std::string(PRE[(k + p) % 3]) + FAM[p];
             a.dims.push_back(d);
         }
@@ -122,7 +133,7 @@ static FileSpec make_spec(const FamEntry &fe, const std::vector<std::vector<DK>>
             ArrSpec a; a.name = "aux" + std::to_string(b); a.block = b; a.role = 'X';
             size_t rank = 1 + ((fe.variant + b) % 3);
             for (size_t p = 0; p < rank; p++) {
-                DimSpec d; d.kind = ((fe.variant + p) % 2) ? RANGE : SAMP; d.len = 3 + ((b + p) % 2);
+                DimSpec d; d.kind = ((fe.variant + p) % 2) ? RANGE : SAMP; d.len = 3 + ((b + p) % 2); d.labeled = false;
                 d.unit = std::string(PRE[(b + p + 1) % 3]) + FAM[p];
                 a.dims.push_back(d);
             }
@@ -180,7 +191,7 @@ static void append_dim(Block &blk, DataArray &da, const ArrSpec &a, size_t p) {
         break; }
     case SET: {
         std::vector<std::string> labels;
-        for (size_t i = 0; i < d.len; i++) labels.push_back("l" + std::to_string(i));
+        for (size_t i = 0; i < d.len && d.labeled; i++) labels.push_back("l" + std::to_string(i));
         SetDimension sd = da.appendSetDimension(labels);
         sd.label("cond" + std::to_string(p));
         break; }
@@ -280,6 +291,7 @@ struct Site {
     std::vector<Ent> breached;   // entities that become non-conforming
     std::vector<std::string> writes, removes;   // conflict keys
     int phase;                   // 0 structure, 1 attributes, 2 deletions, 3 HDF5 level
+    bool primary;                // first variant of this (kind, target): the one used in pairs
 };
 
 static std::string akey(int a) { return "A" + std::to_string(a) + "."; }
@@ -304,7 +316,9 @@ static std::vector<Site> make_sites(const FileSpec &s) {
     auto add = [&](BK k, int cat, bool warn, int a, int p, int t, int v, const std::string &name, const std::string &desc,
                    std::vector<Ent> br, std::vector<std::string> wr, std::vector<std::string> rm, int phase) {
         Site x; x.kind = k; x.cat = cat; x.warn_expected = warn; x.a = a; x.p = p; x.t = t; x.v = v; x.name = name; x.desc = desc;
-        x.breached = br; x.writes = wr; x.removes = rm; x.phase = phase; out.push_back(x);
+        x.breached = br; x.writes = wr; x.removes = rm; x.phase = phase; x.primary = true;
+        for (auto &o : out) if (o.kind == k && o.a == a && o.p == p && o.t == t) x.primary = false;
+        out.push_back(x);
     };
     const int na = (int)s.arrays.size();
     // ---- hard: per array and per dimension
@@ -323,6 +337,7 @@ static std::vector<Site> make_sites(const FileSpec &s) {
                 const char *what = k == RANGE ? "tick" : k == SET ? "label" : "data-frame row";
                 for (int v = 0; v < 3; v++) {
                     if (v == 2 && !main) continue;   // the data-side variant only on primary arrays
+                    if (v == 0 && k == SET && (A.dims[p].len < 2 || !A.dims[p].labeled)) continue;   // no labels at all is conforming ("labels may be empty")
                     std::string nm = std::string(what) + " count != data length (" + (v == 0 ? "one fewer" : v == 1 ? "one more" : "data extent grown by one") + ")";
                     add(bk, 0, false, a, p, -1, v, nm, nm + " at " + dim_ctx(s, a, p), {{'A', a, 0}}, {dkey(a, p) + "count"}, {}, 1);
                 }
@@ -447,8 +462,9 @@ static void apply_api(File &f, const FileSpec &s, const Site &x) {
             rd.ticks(t);
         } else if (x.kind == B_LABELS) {
             SetDimension sd = da.getDimension(x.p + 1).asSetDimension();
-            std::vector<std::string> l = sd.labels();
-            if (x.v == 0) l.pop_back(); else l.push_back("extra");
+            std::vector<std::string> l;
+            size_t want = x.v == 0 ? s.arrays[x.a].dims[x.p].len - 1 : s.arrays[x.a].dims[x.p].len + 1;
+            for (size_t i = 0; i < want; i++) l.push_back("l" + std::to_string(i));
             sd.labels(l);
         } else {
             DataFrame df = blk.getDataFrame(dfname(s.arrays[x.a], x.p));
@@ -531,8 +547,11 @@ static bool apply_h5(hid_t f, const FileSpec &s, const Site &x) {
 typedef std::pair<std::string, std::string> EM;   // (entity id, message)
 struct Res { std::map<EM, int> err, warn; std::string exc, what; bool have = false; };
 
+static double t_validate = 0, t_inject = 0, t_build = 0;
+
 static Res run_validate(const std::string &path) {
     Res r;
+    double t0 = vf::wall();
     r.exc = vf::guarded([&] {
         File f = File::open(path, FileMode::ReadOnly);
         valid::Result v = f.validate();
@@ -542,6 +561,7 @@ static Res run_validate(const std::string &path) {
     }, &r.what);
     r.have = true;
     vf::count("validate_calls");
+    t_validate += vf::wall() - t0;
     return r;
 }
 
@@ -585,6 +605,7 @@ static bool touches(const Site &x, const Ent &e) { for (auto &b : x.breached) if
 // materialise base + the breaches of `set` (indices into sites) and validate
 static Res inject_and_validate(const FileCtx &c, std::vector<int> set, std::string *err) {
     std::string p = vf::scratch_file("work.h5");
+    double t0 = vf::wall();
     copy_file(c.base, p);
     std::stable_sort(set.begin(), set.end(), [&](int i, int j) { return c.sites[i].phase < c.sites[j].phase; });
     bool need_h5 = false;
@@ -602,14 +623,21 @@ static Res inject_and_validate(const FileCtx &c, std::vector<int> set, std::stri
         if (f >= 0) H5Fclose(f);
         if (!ok) { *err = "injection through HDF5 failed"; return Res(); }
     }
+    t_inject += vf::wall() - t0;
     return run_validate(p);
 }
 
 static std::string relation(const FileSpec &s, const Site &x, const Site &y) {
     for (auto &e : x.breached) if (touches(y, e)) return "same entity";
     if (x.a >= 0 && x.a == y.a && x.kind != S_PROP && y.kind != S_PROP) return "same array";
-    auto refs = [&](const Site &t, const Site &o) { return t.t >= 0 && o.a >= 0 && o.kind != S_PROP && std::find(s.tags[t.t].refs.begin(), s.tags[t.t].refs.end(), o.a) != s.tags[t.t].refs.end(); };
-    if (refs(x, y) || refs(y, x)) return "tag and referenced array";
+    auto uses = [&](const Site &t, const Site &o) {
+        if (t.t < 0 || o.a < 0 || o.kind == S_PROP) return false;
+        const TagSpec &T = s.tags[t.t];
+        if (std::find(T.refs.begin(), T.refs.end(), o.a) != T.refs.end() || T.pos == o.a || T.ext == o.a) return true;
+        for (auto &f : T.feats) if (f.arr == o.a) return true;
+        return false;
+    };
+    if (uses(x, y) || uses(y, x)) return "tag and an array it uses";
     return "unrelated entities";
 }
 
@@ -624,7 +652,7 @@ static void check_set(const FileCtx &c, const std::vector<int> &S, const Res &fu
     const bool pair = S.size() == 2;
     std::string kinds = c.sites[S[0]].name + (pair ? " + " + c.sites[S[1]].name : "");
     std::string rel = pair ? relation(c.spec, c.sites[S[0]], c.sites[S[1]]) : "";
-    std::string pre = std::string("C19|File::validate|k=") + (pair ? "2" : "1") + "|" + kinds + (pair ? "|" + rel : "");
+    std::string pre = std::string("C19|File::validate|k=") + (pair ? "2|" + kinds + "|" + rel : "1");
     std::string inst = "file " + std::to_string(c.fi) + " {" + c.spec.desc + "}: " + c.sites[S[0]].desc + (pair ? "  AND  " + c.sites[S[1]].desc : "");
     if (!full.exc.empty()) {
         vf::violation(pre + "|validate threw instead of reporting", inst + " -> " + full.exc + ": " + full.what);
@@ -691,12 +719,25 @@ int main(int argc, char **argv) {
     const std::vector<FamEntry> fam = family(thorough);
     FileCtx ctx;
     long idx = 0;
+    const bool count_only = vf::opt.extra.count("count-only") > 0;   // print the size of the enumeration and exit
+    long tot_sites = 0, tot_pairs = 0;
     std::set<int> combos_seen;
 
     for (size_t fi = 0; fi < fam.size(); fi++) {
         FileSpec spec = make_spec(fam[fi], C);
         std::vector<Site> sites = make_sites(spec);
         const int N = (int)sites.size();
+        const bool all_pairs = fi < QUICK_FILES;   // thorough: every pair on the quick family, related pairs on the rest
+        if (count_only) {
+            long np = 0, nr = 0;
+            for (int i = 0; i < N; i++) for (int j = i + 1; j < N; j++) {
+                if (!sites[i].primary || !sites[j].primary || sites[i].cat == 2 || sites[j].cat == 2 || (sites[i].cat == 1 && sites[j].cat == 1) || conflict(spec, sites[i], sites[j])) continue;
+                np++; if (relation(spec, sites[i], sites[j]) != "unrelated entities") nr++;
+            }
+            fprintf(stderr, "file %zu: %zu arrays %zu tags %d sites, pairs %ld related %ld | %s\n", fi, spec.arrays.size(), spec.tags.size(), N, np, nr, spec.desc.c_str());
+            tot_sites += N; tot_pairs += all_pairs ? np : nr;
+            continue;
+        }
         for (int c0 = 0; c0 < N; c0 += CH) {
             long ci = idx++;
             if (!vf::take_case(ci)) continue;
@@ -707,7 +748,9 @@ int main(int argc, char **argv) {
                 ctx = FileCtx(); ctx.fi = (long)fi; ctx.spec = spec; ctx.sites = sites; ctx.single.assign(N, Res());
                 ctx.base = vf::scratch_file("base.h5");
                 std::string what;
+                double t0 = vf::wall();
                 std::string exc = vf::guarded([&] { ctx.built = build_file(spec, ctx.base); }, &what);
+                t_build += vf::wall() - t0;
                 if (!exc.empty()) {
                     vf::violation("C19|generator|conforming file rejected by the library", "file " + std::to_string(fi) + " {" + spec.desc + "}: " + exc + ": " + what);
                     continue;
@@ -751,11 +794,12 @@ int main(int argc, char **argv) {
                 check_set(ctx, {i}, *ri, ctx.e0, {&ctx.e0});
                 if (fi == 2 && i < 3) vf::sample("{\"file\":" + vf::jstr(spec.desc) + ",\"k\":1,\"breach\":" + vf::jstr(sites[i].desc) + ",\"result\":" + jres(*ri) + "}", 8);
                 if (!thorough) continue;
-                if (sites[i].cat == 2) continue;
+                if (sites[i].cat == 2 || !sites[i].primary) continue;   // pairs: primary variants only
                 for (int j = i + 1; j < N; j++) {
-                    if (sites[j].cat == 2) continue;
+                    if (sites[j].cat == 2 || !sites[j].primary) continue;
                     if (sites[i].cat == 1 && sites[j].cat == 1) { vf::count("pairs_skipped_soft_soft"); continue; }
                     if (conflict(spec, sites[i], sites[j])) { vf::count("pairs_skipped_conflicting"); continue; }
+                    if (!all_pairs && relation(spec, sites[i], sites[j]) == "unrelated entities") { vf::count("pairs_beyond_bound_unrelated"); continue; }
                     const Res *rj = single(j);
                     if (rj->exc == "harness" || !ri->exc.empty() || !rj->exc.empty()) continue;
                     std::string err;
@@ -763,6 +807,7 @@ int main(int argc, char **argv) {
                     if (!err.empty()) { vf::violation("C19|harness|injection failed|" + sites[i].name + " + " + sites[j].name, "file " + std::to_string(fi) + ": " + sites[i].desc + " AND " + sites[j].desc + ": " + err); continue; }
                     vf::count("breach_pairs");
                     check_set(ctx, {i, j}, rp, ctx.e0, {rj, ri});
+                    if (fi == 1 && i == 0 && j < 4) vf::sample("{\"file\":" + vf::jstr(spec.desc) + ",\"k\":2,\"breaches\":[" + vf::jstr(sites[i].desc) + "," + vf::jstr(sites[j].desc) + "],\"result\":" + jres(rp) + "}", 8);
                     if (vf::deadline_hit()) break;
                 }
                 if (vf::deadline_hit()) break;
@@ -771,6 +816,8 @@ int main(int argc, char **argv) {
         }
         if (vf::deadline_hit()) break;
     }
+    if (count_only) fprintf(stderr, "total: %zu files, %ld single breaches, %ld pairs\n", fam.size(), tot_sites, tot_pairs);
+    if (vf::opt.verbose || vf::opt.only >= 0) fprintf(stderr, "C19 timing: build %.2fs inject %.2fs validate %.2fs\n", t_build, t_inject, t_validate);
     vf::note("files_in_family", std::to_string(fam.size()));
     vf::note("max_simultaneous_breaches", thorough ? "2" : "1");
     return vf::finish();
